@@ -4,6 +4,7 @@ from . import build
 
 if __name__ == "__main__":
     t = time.time()
-    for cfg in ("default", "tiny"):
+    for cfg in ("default", "tiny", "smallbuf"):
         print(build.build(config=cfg, lane="asan"))
+    print(build.build(config="default", lane="msan"))
     print("setup done in %.1fs" % (time.time() - t))
